@@ -98,6 +98,8 @@ def render_members(members, ind="", stub=False):
             continue
         k = m["k"]
         if k == "func":
+            for sig in m.get("rt_overloads", []):  # a runtime module that declares its own @overload signatures
+                lines += render_func(m["name"], sig["params"], sig["ret"], None, ind, True, decorator="overload")
             lines += render_func(m["name"], m["params"], m["ret"], m["doc"], ind, stub, decorator=m.get("deco"))
             for acc in m.get("accessors", []):  # property setter / deleter
                 params = [["self", None, False]] + ([["value", m["ret"], False]] if acc == "setter" else [])
@@ -138,7 +140,7 @@ def render_module(doc, members, stub=False, header=()):
     lines = []
     lines += _doc_lines(doc, "")
     lines += list(header)
-    if any(m["k"] == "overloads" for m in _walk(members)):
+    if any(m["k"] == "overloads" or m.get("rt_overloads") for m in _walk(members)):
         lines.append("from typing import overload")
     if any(m.get("guard") for m in _walk(members)):
         lines.append("from typing import TYPE_CHECKING")
